@@ -1003,6 +1003,72 @@ fn fam_logfmt(ctx: &mut Ctx, r: &mut Rng, from: bool) {
     }
 }
 
+/// extraction from a column of an aggregate table: `… | count by doc | sort by doc | json from doc`
+/// — every member of every row's document must come out, whatever the other rows hold
+fn fam_from_after_agg(ctx: &mut Ctx, r: &mut Rng) {
+    let n = 2 + r.below(4);
+    let names = ["a", "b", "c", "dd", "é", "x y"];
+    let logfmt = r.chance(40);
+    let mut docs: Vec<(String, Vec<(String, J)>)> = vec![];
+    for i in 0..n {
+        // documents with DIFFERENT member sets; the i-th always has a member the earlier ones lack
+        let mut members: Vec<(String, J)> = vec![("m0".to_string(), J::Int(i as i64))];
+        for (j, nm) in names.iter().enumerate() {
+            if j == i || r.chance(35) {
+                if logfmt && nm.contains(' ') {
+                    continue;
+                }
+                members.push((nm.to_string(), match r.below(3) { 0 => J::Int(r.range(-9, 99)), 1 => J::Str(format!("v{}", j)), _ => J::Bool(r.chance(50)) }));
+            }
+        }
+        let text = if logfmt {
+            members.iter().map(|(k, v)| format!("{}={}", k, match v { J::Int(i) => format!("{}", i), J::Str(s) => s.clone(), J::Bool(b) => format!("{}", b), _ => "x".into() })).collect::<Vec<_>>().join(" ")
+        } else {
+            format!("{{{}}}", members.iter().map(|(k, v)| format!("{}:{}", serde_json::to_string(k).unwrap(), match v { J::Int(i) => format!("{}", i), J::Str(s) => serde_json::to_string(s).unwrap(), J::Bool(b) => format!("{}", b), _ => "null".into() })).collect::<Vec<_>>().join(","))
+        };
+        docs.push((text, members));
+    }
+    let input: Vec<u8> = docs.iter().map(|d| format!("{}\n", d.0)).collect::<String>().into_bytes();
+    let q = format!("* | parse \"*\" as doc noconvert | count by doc | sort by doc | {} from doc", if logfmt { "logfmt" } else { "json" });
+    let key = ckey(&q, &input);
+    let run = imp::run(&q, &input, "json", 10);
+    let info = serde_json::json!({"query": q, "input": String::from_utf8_lossy(&input)});
+    let rows = match canon::parse(String::from_utf8_lossy(&run.stdout).trim_end()) {
+        Ok(J::Arr(rows)) => rows,
+        _ => vec![],
+    };
+    let mut problem: Option<String> = None;
+    if rows.len() != docs.len() {
+        problem = Some(format!("{} rows for {} distinct documents", rows.len(), docs.len()));
+    }
+    for (text, members) in &docs {
+        let row = rows.iter().find(|row| matches!(row, J::Obj(kvs) if kvs.iter().any(|kv| kv.0 == "doc" && kv.1 == J::Str(text.clone()))));
+        match row {
+            Some(J::Obj(kvs)) => {
+                for (k, v) in members {
+                    let got = kvs.iter().find(|kv| &kv.0 == k).map(|kv| canon::normalize(&kv.1));
+                    if got != Some(canon::normalize(v)) {
+                        problem = Some(format!("document {} : member {:?} should be {:?}, the row has {:?}", text, k, v, got));
+                    }
+                }
+            }
+            _ => problem = Some(format!("no row for document {}", text)),
+        }
+    }
+    match problem {
+        Some(w) => ctx.case("from-after-agg", &key, "viol", serde_json::json!({"class": "C06/member-missing-after-aggregate", "what": w, "got": String::from_utf8_lossy(&run.stdout), "case": info})),
+        None => {
+            ctx.case("from-after-agg", &key, "pass", info.clone());
+            let c = run_both(ctx, &q, &input);
+            match compare(&c, true) {
+                F::Disagree(d) => ctx.case("from-after-agg-model", &key, "fdis", serde_json::json!({"what": d, "case": info})),
+                F::Agree => ctx.case("from-after-agg-model", &key, "pass", info),
+                F::Skip(w) => ctx.case("from-after-agg-model", "", "skip", serde_json::json!({"why": w.split(':').next().unwrap_or("").to_string()})),
+            }
+        }
+    }
+}
+
 /// arbitrary lines: model vs the crate (pairs), and model vs implementation end to end
 fn fam_logfmt_garbage(ctx: &mut Ctx, r: &mut Rng) {
     let text = if r.chance(70) { lf_garbage(r) } else { lf_wellformed(r).0 };
@@ -1128,6 +1194,7 @@ pub fn check(ctx: &mut Ctx) {
             }
             11 | 12 => fam_logfmt(ctx, &mut r, false),
             13 => fam_logfmt(ctx, &mut r, true),
+            14 if i % 64 == 14 => fam_from_after_agg(ctx, &mut r),
             _ => fam_logfmt_garbage(ctx, &mut r),
         }
     }
